@@ -7,33 +7,49 @@
    each with its tokens, interleaved with the comment texts after TrimSpace in the order
    the printer visits them.
 
-   The full statements, NOT proved in Coq (the comment re-assignment by byte position on the
-   printed text was not closed; neither was the lexer round trip lex (print_tokens ts) = ts
-   it rests on):
-
-     Theorem C02_format_reparse_same : forall data s, parse data = POk s ->
-       exists s', parse (format s) = POk s' /\ events s' = events s.
-
-     Theorem C02_format_idempotent : forall data s s', parse data = POk s ->
-       parse (format s) = POk s' -> format s' = format s.
-
-     Theorem C02_format_preserves_directives : forall fix data f,
-       parse_to_file true fix data = DOk f -> well_formed f ->
-       exists f', parse_to_file true fix (format (fd_syntax f)) = DOk f' /\ values f' = values f.
-       (and the same for parse_work)
-
-   They are decided on the implementation by the Go oracles format-reparse-same-events,
-   format-idempotent, format-preserves-directives and autoquote-is-one-token of
-   harness/props/c02.go on every generated input the parsers accept; the statements are
-   meaningful for every accepted input because since /repo a2ca708 no token of the lexer
-   contains a line feed (before that commit both were false: finding K7, repaired).
-
-   Proved: both round-trip statements for EVERY input of at most five bytes over the
-   alphabet [small_alphabet] (the letter a, space, line feed, both parentheses, slash,
-   double quote, comma) — 37449 inputs evaluated by the kernel. *)
+   Proved for EVERY input (no bound on length or alphabet; the input may even contain
+   numbers that are not bytes):
+     C02_format_reparse_same, C02_format_idempotent   (Modfile/Round*.v)
+   The proof goes through a position-free description of the parser: the token stream is
+   cut into rows (RoundRows.v), [group] attaches every end-of-line comment to the node of
+   its row, and C02_parse_is_group states that the parser of read.go with its comment
+   assignment by byte position computes exactly that (on every input). *)
 From Verif.Base Require Import Bytes.
-From Verif.Modfile Require Import Syntax Lex Parse Print ProofsLexNoLF ProofsRound.
+From Verif.Modfile Require Import Syntax Lex Parse Print ProofsLexNoLF ProofsRound
+  RoundRows RoundParse RoundLexPure4 RoundMain1 RoundMain3.
 
+(* format_reparse_same: the formatted output of an accepted input is accepted again and
+   has the same statements, tokens and comment texts in the same order *)
+Theorem C02_format_reparse_same : forall data s, parse data = POk s ->
+  exists s', parse (format s) = POk s' /\ events s' = events s.
+Proof. exact format_reparse_same. Qed.
+Print Assumptions C02_format_reparse_same.
+
+(* format_idempotent: formatting the formatted output again changes nothing *)
+Theorem C02_format_idempotent : forall data s s', parse data = POk s ->
+  parse (format s) = POk s' -> format s' = format s.
+Proof. exact format_idempotent. Qed.
+Print Assumptions C02_format_idempotent.
+
+(* the parser with its position-based comment assignment is the position-free [group] on
+   the rows of the token stream: the tree without positions ([zfile]) is the embedding
+   ([efile]) of what [group] delivers.  (This is why attachment can be reasoned about
+   without byte offsets; RoundParse5.v, RoundMain1.v.) *)
+Theorem C02_parse_is_group : forall data s, parse data = POk s ->
+  exists ts a, lex data = (ts, LEnd) /\ group_file (arows [] ts) = Some a /\ zfile s = efile a.
+Proof.
+  intros data s H. destruct (parse_group data s H) as (ts & a & A & _ & _ & B & C). exists ts, a. auto.
+Qed.
+Print Assumptions C02_parse_is_group.
+
+(* and conversely: whenever the rows of the token stream group, the parser accepts *)
+Theorem C02_group_is_parse : forall data ts a, lex data = (ts, LEnd) ->
+  group_file (arows [] ts) = Some a -> exists s, parse data = POk s /\ zfile s = efile a.
+Proof. exact group_parse. Qed.
+Print Assumptions C02_group_is_parse.
+
+(* the round trip on all short inputs, evaluated by the kernel (kept from the first
+   build; now a special case of the two theorems above) *)
 Theorem C02_format_round_trip_partial : forall data s,
   (length data <= 5)%nat -> Forall (fun c => In c small_alphabet) data ->
   parse data = POk s ->
@@ -49,7 +65,20 @@ Theorem C02_lex_tokens_no_lf : forall data,
 Proof. exact lex_tokens_no_lf. Qed.
 Print Assumptions C02_lex_tokens_no_lf.
 
-(* non-vacuity: a five-byte (empty) block is in the domain and is accepted *)
+(* non-vacuity: a block with comments in every position is accepted, and formatting moves
+   nothing: "x ( // a" LF "// b" LF "y // c" LF ") // d" LF *)
 Example C02_round_trip_example :
-  exists s, parse [97; 40; 10; 41; 10] = POk s /\ format s = [97; 32; 40; 10; 41; 10].
+  exists s, parse (B "x ( // a" ++ [10] ++ B "// b" ++ [10] ++ B "y // c" ++ [10] ++ B ") // d" ++ [10]) = POk s /\
+            format s = B "x ( // a" ++ [10; 9] ++ B "// b" ++ [10; 9] ++ B "y // c" ++ [10] ++ B ") // d" ++ [10].
 Proof. eexists. split; [vm_compute; reflexivity|vm_compute; reflexivity]. Qed.
+
+(* the documented case in which attachment legitimately moves: in "x ( ) // c" the comment
+   hangs on the block; after formatting ("x (" LF ") // c") it hangs on the closing
+   parenthesis.  The event streams agree. *)
+Example C02_attachment_moves :
+  exists s s', parse (B "x ( ) // c") = POk s /\ parse (format s) = POk s' /\
+    s' <> s /\ zfile s' <> zfile s /\ events s' = events s.
+Proof.
+  eexists. eexists. split; [vm_compute; reflexivity|]. split; [vm_compute; reflexivity|].
+  split; [discriminate|]. split; [discriminate|]. vm_compute. reflexivity.
+Qed.
